@@ -47,6 +47,11 @@ def gen_cases(ctx):
                     feeds = [("n", 0, x) for x in scalar_stream(r, n, r.choice(["signed", "walk", "mixed", "flatafter", "segments", "tiny", "huge", "periodic"]), p=p)]
                 cases.append(Case("%s_p%d_%d" % (ind, p, rep), [new_op(0, ind, pr)] + feeds, dump=(0,),
                                   meta={"ind": ind, "p": p, "n": n, "m": pr[3]}))
+    # known finding K8: finite inputs whose differences overflow binary64 make the running variance inf - inf = NaN
+    H = 1.7e308
+    for p in (1, 2, 3):
+        cases.append(Case("OVF_SD_p%d" % p, [new_op(0, "SD", (p, 0, 0, 0.0))] + [("n", 0, x) for x in (H, -H, H)], dump=(0,),
+                          meta={"ind": "SD", "p": p, "n": 3, "m": 0.0, "ovf": True}))
     return cases
 
 
@@ -110,8 +115,9 @@ def check_impl(ctx, cases):
                 if v[0] == v[0] and not (lo - tol <= v[0] <= hi + tol):
                     bad = "%s(%d) = %r outside [%r, %r] (+- %.3g) at step %d" % (ind, p, v[0], lo, hi, tol, t)
             if bad:
-                out.append(Violation(bad, case=c))
+                key = {"indicator": ind, "class": "intermediate-overflow"} if c.meta.get("ovf") else None
+                out.append(Violation(bad, case=c, finding_key=key))
                 break
-        if len(out) > 10:
+        if len([v for v in out if v.finding_key is None]) > 10:
             break
     return out
